@@ -20,7 +20,7 @@ import time
 VERIF = os.path.dirname(os.path.dirname(os.path.abspath(__file__)))
 SPEC = os.path.join(VERIF, "spec")
 HARNESS = os.path.join(VERIF, "harness")
-EVID = os.path.join(VERIF, "evidence")
+EVID = os.environ.get("VERIF_EVIDENCE_DIR") or os.path.join(VERIF, "evidence")
 REPLAYS = os.path.join(EVID, "replays")
 TLA_CP = "/opt/veriftools/tla/tla2tools.jar:/opt/veriftools/tla/CommunityModules-deps.jar"
 NCPU = os.cpu_count() or 4
@@ -103,25 +103,42 @@ class Ctx:
         return quick if self.tier == "quick" else thorough
 
     # ---------------------------------------------------------------- build
-    def build(self, profile="release"):
-        """Build the harness (and mila from /repo's working tree). Returns binary path."""
-        lock = os.path.join(HARNESS, "Cargo.lock")
+    def build(self, profile="release", bin="mvh_text"):
+        """Build one harness binary (and mila from /repo's working tree). Returns the binary path.
+        profile: "release" (wrapping arithmetic) or "checked" (overflow-checks + debug-assertions).
+        Developer aid: VERIF_MILA=<dir> builds against a scratch copy of mila instead of /repo (used by
+        dev/mutant.sh so that mutants never touch /repo); registered checks never set it."""
+        hdir = HARNESS
+        alt = os.environ.get("VERIF_MILA")
+        if alt:
+            import hashlib
+            hdir = os.path.join(alt, ".verif_harness")
+            if not os.path.exists(hdir):
+                os.makedirs(hdir)
+                os.symlink(os.path.join(HARNESS, "src"), os.path.join(hdir, "src"))
+                shutil.copytree(os.path.join(HARNESS, ".cargo"), os.path.join(hdir, ".cargo"))
+                with open(os.path.join(HARNESS, "Cargo.toml")) as f:
+                    toml = f.read().replace('path = "/repo"', 'path = "%s"' % os.path.abspath(alt))
+                with open(os.path.join(hdir, "Cargo.toml"), "w") as f:
+                    f.write(toml)
+                shutil.copy(os.path.join(HARNESS, "Cargo.lock"), os.path.join(hdir, "Cargo.lock"))
+        lock = os.path.join(hdir, "Cargo.lock")
         if not os.path.exists(lock):
             shutil.copy("/repo/Cargo.lock", lock)
         env = dict(os.environ)
         env["CARGO_NET_OFFLINE"] = "true"
-        cmd = ["cargo", "build", "--offline", "--quiet"]
+        cmd = ["cargo", "build", "--offline", "--quiet", "--bin", bin]
         if profile == "release":
             cmd.append("--release")
         else:
             cmd += ["--profile", profile]
         t = time.time()
-        p = subprocess.run(cmd, cwd=HARNESS, env=env, stdout=subprocess.PIPE, stderr=subprocess.STDOUT, text=True)
+        p = subprocess.run(cmd, cwd=hdir, env=env, stdout=subprocess.PIPE, stderr=subprocess.STDOUT, text=True)
         if p.returncode != 0:
             print(p.stdout[-6000:])
-            raise ToolError("cargo build failed (profile %s)" % profile)
-        self.log("built harness profile=%s in %.1fs" % (profile, time.time() - t))
-        return os.path.join(HARNESS, "target", profile, "mvh")
+            raise ToolError("cargo build failed (profile %s, bin %s)" % (profile, bin))
+        self.log("built %s profile=%s in %.1fs" % (bin, profile, time.time() - t))
+        return os.path.join(hdir, "target", profile, bin)
 
     def harness(self, binary, args, stdin_path=None, stdout_path=None, timeout=3600, env=None, ok_codes=(0,)):
         e = dict(os.environ)
@@ -145,6 +162,72 @@ class Ctx:
             sys.stdout.write((p.stderr or b"").decode("utf8", "replace")[-4000:])
             raise ToolError("harness exited %d: %s" % (p.returncode, " ".join(args)))
         return (p.stdout or b"").decode("utf8", "replace") if not stdout_path else ""
+
+    # ---------------------------------------------------------------- isolated execution
+    def isolated(self, binary, args, n_cases, out_path, per_case_timeout=10.0, env=None):
+        """Runs `binary args --from <k>` under supervision (protocol: util::run_isolated in the harness).
+        The harness appends one JSON result per case to out_path.  A case during which the process died
+        (signal / abort / exit) or exceeded per_case_timeout gets a synthetic result
+        {"i": i, "outcome": "abort"|"timeout", "signal": n} appended instead, and the run resumes after it.
+        Returns the list of results sorted by case index."""
+        import select
+        e = dict(os.environ)
+        e["VERIF_SEED"] = str(self.seed)
+        e["VERIF_TIER"] = self.tier
+        e["RUST_BACKTRACE"] = "0"
+        if env:
+            e.update(env)
+        if os.path.exists(out_path):
+            os.remove(out_path)
+        start = 0
+        restarts = 0
+        while start < n_cases:
+            p = subprocess.Popen([binary] + list(args) + ["--from", str(start)], stdout=subprocess.PIPE,
+                                 stderr=subprocess.PIPE, env=e)
+            cur, done = None, start - 1
+            t_case = time.time()
+            buf = b""
+            killed = None
+            while True:
+                r, _, _ = select.select([p.stdout], [], [], 0.25)
+                if r:
+                    chunk = os.read(p.stdout.fileno(), 65536)
+                    if not chunk:
+                        break
+                    buf += chunk
+                    while b"\n" in buf:
+                        line, buf = buf.split(b"\n", 1)
+                        if line.startswith(b"S "):
+                            cur = int(line[2:])
+                            t_case = time.time()
+                        elif line.startswith(b"D "):
+                            done = int(line[2:])
+                            cur = None
+                elif p.poll() is not None:
+                    break
+                if cur is not None and time.time() - t_case > per_case_timeout:
+                    p.kill()
+                    killed = "timeout"
+                    break
+            p.wait()
+            err = p.stderr.read().decode("utf8", "replace")[-400:]
+            p.stdout.close()
+            p.stderr.close()
+            if cur is None and p.returncode == 0:
+                break
+            if cur is None:
+                raise ToolError("harness died outside a case (rc=%s): %s" % (p.returncode, err))
+            with open(out_path, "a") as f:
+                f.write(json.dumps({"i": cur, "outcome": killed or "abort", "signal": -p.returncode if p.returncode < 0 else p.returncode,
+                                    "stderr": err}) + "\n")
+            start = cur + 1
+            restarts += 1
+            if restarts > 2000:
+                raise ToolError("too many worker restarts")
+        res = read_ndjson(out_path) if os.path.exists(out_path) else []
+        res.sort(key=lambda x: x["i"])
+        self.extra["worker_restarts"] = self.extra.get("worker_restarts", 0) + restarts
+        return res
 
     # ---------------------------------------------------------------- TLC
     def tlc(self, module, cfg=None, env=None, workers=None, timeout=1800, simulate=None, depth=None,
